@@ -37,6 +37,29 @@ func (mp *MemPool) VerifExist(hash []byte) *types.Tx              { return mp.ex
 func (mp *MemPool) VerifGet(max uint32) ([]types.Transaction, error) { return mp.get(max) }
 func (mp *MemPool) VerifListHash(max int) ([]types.TxID, bool)    { return mp.listHash(max) }
 
+// VerifVerifyTx is the front end's first step (TxVerifier.Receive: exist, verifyTx, put).
+func (mp *MemPool) VerifVerifyTx(tx types.Transaction) error { return mp.verifyTx(tx) }
+
+// VerifC13AccountState: the account state the pool itself reads (getAccountState on its own StateDB at the root it
+// was last told): nonce and balance. Read-only.
+func (mp *MemPool) VerifC13AccountState(acc []byte) (uint64, *big.Int) {
+	mp.RLock()
+	defer mp.RUnlock()
+	st, err := mp.getAccountState(acc)
+	if err != nil || st == nil {
+		return 0, new(big.Int)
+	}
+	return st.GetNonce(), st.GetBalanceBigInt()
+}
+
+// VerifC13Started: has AfterStart run to its end (verifier pool spawned, state DB opened on the best block, monitor
+// started)? AfterStart runs on the goroutine that called Start, after the actor is already receiving.
+func (mp *MemPool) VerifC13Started() bool {
+	mp.RLock()
+	defer mp.RUnlock()
+	return mp.verifier != nil && mp.stateDB != nil
+}
+
 // VerifUnconfirmed runs the unconfirmed-transaction report for one account.
 func (mp *MemPool) VerifUnconfirmed(acc []byte) (pooled, orphaned int, pooledIDs, orphanedIDs []string) {
 	u := mp.getUnconfirmed([]types.Address{types.Address(acc)}, false)
